@@ -329,6 +329,18 @@ package fpgo
 //@   prop C04,C05
 //@   ensures copy: r0 != nil && fresh(r0) && SS(r0) != nil && fresh(SS(r0)) && forallv(x, has(SS(r0), x) == has(theMap, x)) && forallv(x, has(theMap, x) ==> SS(r0)[x] == theMap[x])
 
+//@ func StreamSetFromArray
+//@   prop C04,C05
+//@   ensures made: r0 != nil && fresh(r0) && SS(r0) != nil && fresh(SS(r0)) && forallv(x, has(SS(r0), x) == exists(i, 0, len(list), list[i] == x))
+//@   ensures empty-streams: forallv(x, has(SS(r0), x) ==> SS(r0)[x] != nil && fresh(SS(r0)[x]) && len(*SS(r0)[x]) == 0)
+//@ func StreamSetFromArray loop 0
+//@   invariant made: newOne != nil && fresh(newOne) && SS(newOne) != nil && fresh(SS(newOne)) && forallv(x, has(SS(newOne), x) == exists(i, 0, _i, list[i] == x))
+//@   invariant empty-streams: forallv(x, has(SS(newOne), x) ==> SS(newOne)[x] != nil && fresh(SS(newOne)[x]) && len(*SS(newOne)[x]) == 0)
+//@ func StreamSetFrom
+//@   prop C04,C05
+//@   ensures made: r0 != nil && fresh(r0) && SS(r0) != nil && fresh(SS(r0)) && forallv(x, has(SS(r0), x) == exists(i, 0, len(list), list[i] == x))
+//@   ensures empty-streams: forallv(x, has(SS(r0), x) ==> SS(r0)[x] != nil && fresh(SS(r0)[x]) && len(*SS(r0)[x]) == 0)
+
 //@ func (StreamSetDef).Clone
 //@   prop C04,C05
 //@   requires streamSetSelf != nil
@@ -448,6 +460,55 @@ package fpgo
 //@ func NewStreamSetForInterface
 //@   prop C04,C05
 //@   ensures empty: r0 != nil && fresh(r0) && SSI(r0) != nil && fresh(SSI(r0)) && len(SSI(r0)) == 0 && forallv(x, !has(SSI(r0), x))
+
+//@ define SSI_MADE(r) = r != nil && fresh(r) && SSI(r) != nil && fresh(SSI(r)) && forallv(x, has(SSI(r), x) == exists(i, 0, len(list), list[i] == x))
+//@ define SSI_EMPTY_STREAMS(r) = forallv(x, has(SSI(r), x) ==> isptr(SSI(r)[x], StreamForInterfaceDef) && STI(r, x) != nil && fresh(STI(r, x)) && len(*STI(r, x)) == 0)
+//@ func StreamSetForInterfaceFromArray
+//@   prop C04,C05
+//@   ensures made: SSI_MADE(r0)
+//@   ensures empty-streams: SSI_EMPTY_STREAMS(r0)
+//@ func StreamSetForInterfaceFromArray loop 0
+//@   invariant made: newOne != nil && fresh(newOne) && SSI(newOne) != nil && fresh(SSI(newOne)) && forallv(x, has(SSI(newOne), x) == exists(i, 0, _i, list[i] == x))
+//@   invariant empty-streams: SSI_EMPTY_STREAMS(newOne)
+//@ func StreamSetForInterfaceFrom
+//@   prop C04,C05
+//@   ensures made: SSI_MADE(r0)
+//@   ensures empty-streams: SSI_EMPTY_STREAMS(r0)
+//@ func StreamSetFromInterface
+//@   prop C04,C05
+//@   ensures made: SSI_MADE(r0)
+//@   ensures empty-streams: SSI_EMPTY_STREAMS(r0)
+//@ func StreamSetFromArrayInterface
+//@   prop C04,C05
+//@   ensures made: SSI_MADE(r0)
+//@   ensures empty-streams: SSI_EMPTY_STREAMS(r0)
+// the map is copied; each value is the given stream pointer itself, boxed (a nil pointer is boxed as a typed nil)
+//@ func StreamSetForInterfaceFromMap
+//@   prop C04,C05
+//@   ensures copy: r0 != nil && fresh(r0) && SSI(r0) != nil && fresh(SSI(r0)) && forallv(x, has(SSI(r0), x) == has(theMap, x)) && forallv(x, has(theMap, x) ==> isptr(SSI(r0)[x], StreamForInterfaceDef) && STI(r0, x) == theMap[x])
+//@ func StreamSetForInterfaceFromMap loop 0
+//@   invariant copy: resultMap != nil && fresh(resultMap) && forallv(x, has(resultMap, x) == (has(theMap, x) && _visited(x))) && forallv(x, has(resultMap, x) ==> isptr(resultMap[x], StreamForInterfaceDef) && asptr(resultMap[x], StreamForInterfaceDef) == theMap[x])
+
+// the typed-slice converters: a new stream whose i-th item is the i-th element, boxed; the input is only read
+//@ func (StreamForInterfaceDef).FromArrayString
+//@   prop C04,C05
+//@   ensures boxed-copy: r0 != nil && fresh(r0) && fresh(*r0) && len(*r0) == len(old) && forall(i, 0, len(old), (*r0)[i] == boxed(old[i]))
+//@ func (StreamForInterfaceDef).FromArrayString loop 0
+//@   invariant boxed-so-far: new != nil && fresh(new) && len(new) == len(old) && forall(i, 0, _i, new[i] == boxed(old[i]))
+//@ twin (StreamForInterfaceDef).FromArrayString (StreamForInterfaceDef).FromArrayMaybe prop C04,C05
+//@ twin (StreamForInterfaceDef).FromArrayString (StreamForInterfaceDef).FromArrayBool prop C04,C05
+//@ twin (StreamForInterfaceDef).FromArrayString (StreamForInterfaceDef).FromArrayInt prop C04,C05
+//@ twin (StreamForInterfaceDef).FromArrayString (StreamForInterfaceDef).FromArrayByte prop C04,C05
+//@ twin (StreamForInterfaceDef).FromArrayString (StreamForInterfaceDef).FromArrayInt8 prop C04,C05
+//@ twin (StreamForInterfaceDef).FromArrayString (StreamForInterfaceDef).FromArrayInt16 prop C04,C05
+//@ twin (StreamForInterfaceDef).FromArrayString (StreamForInterfaceDef).FromArrayInt32 prop C04,C05
+//@ twin (StreamForInterfaceDef).FromArrayString (StreamForInterfaceDef).FromArrayInt64 prop C04,C05
+//@ twin (StreamForInterfaceDef).FromArrayString (StreamForInterfaceDef).FromArrayFloat32 prop C04,C05
+//@ twin (StreamForInterfaceDef).FromArrayString (StreamForInterfaceDef).FromArrayFloat64 prop C04,C05
+
+//@ func (StreamForInterfaceDef).From
+//@   prop C04,C05
+//@   ensures view: r0 != nil && fresh(r0) && *r0 == list
 
 //@ func (StreamSetForInterfaceDef).Clone
 //@   prop C04,C05
